@@ -151,6 +151,16 @@ def gen_cases(ctx):
             if rel.is_lat:
                 init_rows = list({r[:-1]: r for r in init_rows}.values())
         vs = make_variants(rng, prog, input_rels, cname, init_rel, init_rows, bogus)
+        # ascent_run! in which one input relation has NO initialiser (and no rule): it is simply empty, and negations / aggregations
+        # over it still fire. These variants get the job's rows without that relation's rows, and are compared with the reference on those.
+        dropc = [r for r in input_rels if r != init_rel]
+        if dropc:
+            dropped = rng.choice(dropc)
+            for nm, kind in (('runmin', 'ascent_run'), ('runparmin', 'ascent_run_par')):
+                v = E.Variant(nm, prog, kind)
+                v.load_rels = [r.name for r in prog.rels if r.name != dropped]
+                v.desc, v.inputs_include_init, v.drop_rel = '%s! with no initialiser for input relation %s (left empty)' % (kind, dropped), True, dropped
+                vs.append(v)
         if src:
             r0 = rng.choice(src)
             lim = rng.randrange(1, dom)
@@ -174,6 +184,10 @@ def gen_cases(ctx):
             full = init_pairs + rows
             for v in vs:
                 if getattr(v, 'assign_rel', None):
+                    continue
+                if getattr(v, 'drop_rel', None):
+                    kept = [p for p in full if p[0] != v.drop_rel]
+                    case.jobs.append(P.Job('%s_i%d_%s' % (cname, ii, v.name), case, v, kept, meta={'expect': [kept]}))
                     continue
                 case.jobs.append(P.Job('%s_i%d_%s' % (cname, ii, v.name), case, v, full if v.inputs_include_init else rows, meta={'expect': [full]}))
         cases.append(case)
